@@ -487,7 +487,77 @@ class C07(Property):
                '/-- does `navigate` let a present-but-empty query of the reference (`?`, `?#s`) replace the base query? -/',
                'def navHonoursEmptyQuery : Bool := %s' % ('true' if self.nav_honours_empty_query() else 'false'),
                'end C07.Gen']
-        return {'C07_Schemes.lean': '\n'.join(src) + '\n', 'C07_Nav.lean': '\n'.join(nav) + '\n'}
+        navsrc, self._nav_tie = self.nav_source_tie()
+        return {'C07_Schemes.lean': '\n'.join(src) + '\n', 'C07_Nav.lean': '\n'.join(nav) + '\n',
+                'C07_NavSrc.lean': navsrc}
+
+    def nav_selftest_pairs(self):
+        """(base text, reference text) pairs on which the front-end's normal form of navigate is compared with the
+        real method (CPython against CPython) before it is translated"""
+        bases = [compose(b) for b in BASES + ODD_BASES + self.HOSTLESS_BASES]
+        refs = [compose(r) for r in ABS_REFS + ODD_REFS]
+        for path in sorted(set(self.exhaustive_refs(2, SEGS_SMALL))):
+            for q in QUERIES + ['k=1&k=2']:
+                refs.append(compose(compact({'path': path, 'query': q})))
+        refs += ['#s', '?#s', '//h/p', '//h:99', '//u@[::3]/p/..']
+        return [(b, r) for b in bases for r in refs]
+
+    def nav_source_tie(self):
+        """SOURCE TIE of URL.navigate's decision logic: the method's normal form (bv/props/c07_navform.py), validated
+        against the real method, translated by harness/py2lean.py -> (text of Generated/C07_NavSrc.lean, info).
+        When the current source is outside the front-end's subset (or the normal form fails its self-test, or leaves
+        the translator's subset) the normal form of the reference version is translated instead and `tied := false`:
+        the theorems src_navigate_* then say nothing about the current source (recorded in the evidence)."""
+        import os
+        import sys
+        hdir = os.path.dirname(os.path.dirname(os.path.dirname(os.path.abspath(__file__))))
+        if hdir not in sys.path:
+            sys.path.insert(0, hdir)
+        import py2lean
+        from bv.props import c07_navform as nf
+        from boltons import urlutils
+        info = {'function': 'boltons.urlutils.URL.navigate', 'normal_form_by': 'harness/bv/props/c07_navform.py',
+                'lean_def': 'C07.NavSrc.navigate_core',
+                'tie_theorems': ['C07.src_navigate_core_eq_model', 'C07.src_navigate_eq_model',
+                                 'C07.src_navigate_replacing', 'C07.src_navigate_eq_rfc']}
+        path = urlutils.__file__
+        if path.endswith('.pyc'):
+            path = path[:-1]
+        tied, reason = True, ''
+        try:
+            form = nf.normal_form(open(path).read())
+        except nf.Refuse as e:
+            tied, reason, form = False, 'front-end: %s' % e, nf.CANON
+        except Exception as e:       # noqa: BLE001  (a source that does not even parse: the import would have failed)
+            tied, reason, form = False, 'front-end: %s' % exc_name(e), nf.CANON
+        if tied:
+            try:
+                with time_limit(30):
+                    n, bad = nf.selftest(form, urlutils.URL, self.nav_selftest_pairs())
+            except Exception as e:       # noqa: BLE001
+                n, bad = 0, 'self-test raised %s' % exc_name(e)
+            info['normal_form_selftest_pairs'] = n
+            if bad:
+                tied, reason, form = False, 'normal form disagrees with the method: %s' % bad[:300], nf.CANON
+        text, infos = py2lean.translate_source(form, [nf.SPEC], 'boltons.urlutils', 'boltons/urlutils.py')
+        if 'error' in infos[0] and tied:
+            tied, reason = False, 'py2lean: %s' % infos[0]['error']
+            text, infos = py2lean.translate_source(nf.CANON, [nf.SPEC], 'boltons.urlutils', 'boltons/urlutils.py')
+        if 'error' in infos[0]:
+            raise ValueError('the reference normal form of URL.navigate is not translated: %s' % infos[0]['error'])
+        info['tied'] = tied
+        if not tied:
+            info['not_applied_because'] = reason
+        text = text.replace('/- GENERATED by harness/py2lean.py from boltons/urlutils.py - do not edit.',
+                            '/- GENERATED by harness/bv/props/c07.py (regen): harness/py2lean.py applied to the NORMAL FORM of\n'
+                            '   boltons.urlutils.URL.navigate (harness/bv/props/c07_navform.py) - do not edit.\n'
+                            '   ' + ('normal form of the CURRENT source (validated against the method in CPython)' if tied else
+                                     'the current source is outside the front-end subset: normal form of the REFERENCE version'))
+        text = text.replace('-> Src.urlutils.navigate_core', '-> C07.NavSrc.navigate_core')
+        text = text.replace('namespace Src.urlutils', 'namespace C07.NavSrc')
+        text = text.replace('end Src.urlutils', '/-- is `navigate_core` the normal form of the source under test? -/\n'
+                            'def tied : Bool := %s\n\nend C07.NavSrc' % ('true' if tied else 'false'))
+        return text, info
 
     @staticmethod
     def nav_honours_empty_query():
@@ -526,6 +596,10 @@ class C07(Property):
         if problems:
             raise InfraError('py2lean_prepass self-test: ' + '; '.join(problems[:3]))
         self.stats['prepass_selftest_comparisons'] = n_pp
+        # the source tie of navigate's decision logic: applied to this source or not, and why
+        if getattr(self, '_nav_tie', None) is None:
+            self._nav_tie = self.nav_source_tie()[1]
+        self.stats['navigate_source_tie'] = self._nav_tie
         # reference TEXTS: the Lean Appendix-B parser (Spec.rfcParse) against the oracle's regex, and the model's
         # `URL(text)` (Model.refOfText / URL.ofText) against the real URL(text), on every small reference text
         # and a list of texts with repeated / misplaced delimiters
@@ -774,6 +848,9 @@ class C07(Property):
             for path in paths:
                 for q in (None, 'y=1'):
                     yield {'base': b, 'refs': [compact({'path': path, 'query': q})], 'as_url': 0}
+        for b in self.HOSTLESS_BASES:
+            for path in sorted(set(self.exhaustive_refs(3, SEGS_SMALL))):
+                yield {'base': b, 'refs': [compact({'path': path})], 'as_url': 0}
         for c in self.adversarial(rng, 2000):
             yield c
         while True:
